@@ -32,6 +32,8 @@ mod common;
 mod corpus;
 mod engine_a;
 mod props_a;
+mod engine_b;
+mod props_b;
 
 use common::*;
 
@@ -69,6 +71,7 @@ fn run_check(id: &str, tier: Tier) -> i32 {
   let r = std::panic::catch_unwind(std::panic::AssertUnwindSafe(|| -> Outcome {
     match id {
       "C01" | "C02" | "C03" | "C04" | "C05" | "C06" | "C07" | "C08" | "C09" | "C19" => props_a::run(&ctx),
+      "C10" | "C11" | "C12" | "C20" => props_b::run(&ctx),
       _ => Outcome::machinery(format!("unknown property {}", id)),
     }
   }));
@@ -87,6 +90,7 @@ fn replay(path: &str) -> i32 {
   let v: serde_json::Value = match serde_json::from_str(&text) { Ok(v) => v, Err(e) => { eprintln!("bad artefact: {}", e); return 2; } };
   match v["engine"].as_str() {
     Some("A") => engine_a::replay_artefact(&v),
+    Some("B") => props_b::replay_artefact(&v),
     _ => { eprintln!("unknown engine in artefact"); 2 }
   }
 }
